@@ -52,8 +52,10 @@ ConvFails(e) ==
   IF e.outcome = "panic" THEN "the conversion crashed; "
   ELSE IF e.outcome \in {"nil", "both"} THEN "the conversion returned neither exactly a value nor exactly an error; "
   ELSE IF ~ConvOK(e.mgr, e.v.t, e.to)
-       THEN F(e.outcome = "error", IF e.mgr = "safe" THEN "the type-safe manager performed a conversion other than a numeric widening"
-                                     ELSE "an unsupported conversion did not yield an error")
+       \* (the type-safe manager must refuse; which further conversions the type-unsafe manager offers is not stated - if it
+       \* delivers something, it is a value of the requested type)
+       THEN (IF e.mgr = "safe" THEN F(e.outcome = "error", "the type-safe manager performed a conversion other than a numeric widening")
+             ELSE F(e.outcome = "error" \/ (e.outcome = "value" /\ e.r.t = e.to), "a conversion the manager does not offer yielded neither an error nor a value of the requested type"))
   \* a floating-point value without an integer part that 64 bits can hold (NaN, an infinity, 2^63 and beyond): the host language
   \* defines no result for converting it to an integer type, so an error is as good as a value
   ELSE IF e.outcome = "error" /\ "vfits" \in DOMAIN e /\ ~e.vfits /\ e.v.t \in {"Float", "Double"} /\ e.to \in {"Integer", "Long", "TimeSpan", "DateTime"} THEN ""
